@@ -11,6 +11,8 @@
  *   init <lht|fifo|lifo|lru> <max> <keyDtor 0|1> <valDtor 0|1> <hashmode>
  *   put <ident> <ptr> <val> | find <ident> | findmv <ident> | remove <ident> | clear
  *   mvend <ident> | uselru | getmru
+ * <ident> 1000 is the NULL key (legal for aws_hash_table: hash 42, equal to itself only; the user's hash / equality
+ * callbacks never see it; its pointer number is always 0), <val> 0 is the NULL value.
  */
 #include "h_common.h"
 #include <aws/common/cache.h>
@@ -26,6 +28,7 @@
 #define MAX_PTR 4
 #define MAX_VALS 8192
 #define MAX_EVS 1024
+#define NULL_IDENT 1000u
 
 struct hkey {
     unsigned ident;
@@ -56,7 +59,10 @@ static const void *s_probe; /* the stack key of the lookup in progress */
 static unsigned s_mon_key_uad, s_mon_key_dd, s_mon_val_dd, s_mon_dead_in_table, s_mon_dead_result;
 
 static bool s_key_live(const void *p) {
-    if (p == s_probe && p) {
+    if (!p) {
+        return true; /* the NULL key */
+    }
+    if (p == s_probe) {
         return true;
     }
     for (size_t i = 0; i < MAX_IDENT; ++i) {
@@ -70,6 +76,9 @@ static bool s_key_live(const void *p) {
 }
 
 static bool s_val_live(const void *p) {
+    if (!p) {
+        return true; /* the NULL value */
+    }
     for (size_t i = 0; i < s_nvals; ++i) {
         if (s_vals[i] == p && p) {
             return true;
@@ -78,9 +87,19 @@ static bool s_val_live(const void *p) {
     return false;
 }
 
+static unsigned k_ident(const void *key) {
+    return key ? ((const struct hkey *)key)->ident : NULL_IDENT;
+}
+static unsigned k_ptr(const void *key) {
+    return key ? ((const struct hkey *)key)->ptr : 0;
+}
+static unsigned long v_val(const void *v) {
+    return v ? ((const struct hval *)v)->val : 0;
+}
+
 static uint64_t s_hash(const void *p) {
     const struct hkey *k = p;
-    if (!s_key_live(p)) {
+    if (!p || !s_key_live(p)) { /* the library must not hand NULL to the user's hash function */
         ++s_mon_key_uad;
         return 0;
     }
@@ -97,7 +116,7 @@ static uint64_t s_hash(const void *p) {
 }
 
 static bool s_eq(const void *a, const void *b) {
-    if (!s_key_live(a) || !s_key_live(b)) {
+    if (!a || !b || !s_key_live(a) || !s_key_live(b)) {
         ++s_mon_key_uad;
         return false;
     }
@@ -106,6 +125,13 @@ static bool s_eq(const void *a, const void *b) {
 
 static void s_on_key_destroy(void *p) {
     struct hkey *k = p;
+    if (!p) { /* the NULL key: nothing to free */
+        if (!s_quiet) {
+            HC_CHECK(s_nevs < MAX_EVS);
+            snprintf(s_evs[s_nevs++], sizeof(s_evs[0]), "k%u.0", NULL_IDENT);
+        }
+        return;
+    }
     if (!s_key_live(p) || p == s_probe) {
         ++s_mon_key_dd;
         return;
@@ -122,6 +148,13 @@ static void s_on_key_destroy(void *p) {
 
 static void s_on_val_destroy(void *p) {
     struct hval *v = p;
+    if (!p) { /* the NULL value */
+        if (!s_quiet) {
+            HC_CHECK(s_nevs < MAX_EVS);
+            snprintf(s_evs[s_nevs++], sizeof(s_evs[0]), "v0");
+        }
+        return;
+    }
     if (!s_val_live(p)) {
         ++s_mon_val_dd;
         return;
@@ -220,7 +253,7 @@ static void s_print_state(void) {
             HC_CHECK(++n < 100000);
             continue;
         }
-        printf(" %u.%u=%lu", k->ident, k->ptr, v->val);
+        printf(" %u.%u=%lu", k_ident(k), k_ptr(k), v_val(v));
         struct aws_hash_element *el = NULL;
         aws_hash_table_find(&t->table, node->key, &el);
         if (!el || el->value != node || el->key != node->key) {
@@ -263,11 +296,11 @@ static void s_print_impl(void) {
         if (!s_key_live(k)) {
             printf(" %zu:?", i);
         } else if (!node) {
-            printf(" %zu:%u.%u=NULL", i, k->ident, k->ptr);
+            printf(" %zu:%u.%u=NULL", i, k_ident(k), k_ptr(k));
         } else if (!s_val_live(node->value)) {
-            printf(" %zu:%u.%u=?", i, k->ident, k->ptr);
+            printf(" %zu:%u.%u=?", i, k_ident(k), k_ptr(k));
         } else {
-            printf(" %zu:%u.%u=%lu", i, k->ident, k->ptr, ((const struct hval *)node->value)->val);
+            printf(" %zu:%u.%u=%lu", i, k_ident(k), k_ptr(k), v_val(node->value));
         }
     }
     if (!n) {
@@ -280,7 +313,7 @@ static void s_print_impl(void) {
          it = aws_linked_list_next(it)) {
         const struct aws_linked_hash_table_node *node = AWS_CONTAINER_OF(it, struct aws_linked_hash_table_node, node);
         if (s_val_live(node->value)) {
-            printf(" %lu", ((const struct hval *)node->value)->val);
+            printf(" %lu", v_val(node->value));
         } else {
             printf(" ?");
         }
@@ -295,7 +328,7 @@ static void s_print_impl(void) {
          it = aws_linked_list_prev(it)) {
         const struct aws_linked_hash_table_node *node = AWS_CONTAINER_OF(it, struct aws_linked_hash_table_node, node);
         if (s_val_live(node->value)) {
-            printf(" %lu", ((const struct hval *)node->value)->val);
+            printf(" %lu", v_val(node->value));
         } else {
             printf(" ?");
         }
@@ -308,6 +341,9 @@ static void s_print_impl(void) {
 }
 
 static struct hkey *s_key_obj(unsigned ident, unsigned ptr) {
+    if (ident == NULL_IDENT) {
+        return NULL;
+    }
     HC_CHECK(ident < MAX_IDENT && ptr < MAX_PTR);
     if (!s_keys[ident][ptr]) {
         struct hkey *k = malloc(sizeof(*k));
@@ -323,7 +359,7 @@ static void s_print_val(const char *what, void *p) {
         ++s_mon_dead_result;
         printf("P %s ?\n", what);
     } else if (p) {
-        printf("P %s %lu\n", what, ((struct hval *)p)->val);
+        printf("P %s %lu\n", what, v_val(p));
     } else {
         printf("P %s NULL\n", what);
     }
@@ -370,35 +406,41 @@ int main(void) {
         } else if (!strcmp(t[0], "put") && n == 4) {
             struct hkey *k = s_key_obj((unsigned)atoi(t[1]), (unsigned)atoi(t[2]));
             HC_CHECK(s_nvals < MAX_VALS);
-            struct hval *v = malloc(sizeof(*v));
-            v->val = strtoul(t[3], NULL, 10);
-            v->slot = s_nvals;
-            s_vals[s_nvals++] = v;
+            struct hval *v = NULL;
+            if (strtoul(t[3], NULL, 10) != 0) {
+                v = malloc(sizeof(*v));
+                v->val = strtoul(t[3], NULL, 10);
+                v->slot = s_nvals;
+                s_vals[s_nvals++] = v;
+            }
             int rc = s_kind == K_LHT ? aws_linked_hash_table_put(&s_lht, k, v) : aws_cache_put(s_cache, k, v);
             printf("P put %s\n", hc_err(rc));
             s_print_evs(true);
             s_print_state();
         } else if (!strcmp(t[0], "find") && n == 2) {
-            struct hkey probe = {(unsigned)atoi(t[1]), 99};
+            struct hkey probe_obj = {(unsigned)atoi(t[1]), 99};
+            struct hkey *probe = probe_obj.ident == NULL_IDENT ? NULL : &probe_obj;
             void *p = NULL;
-            s_probe = &probe;
-            int rc = s_kind == K_LHT ? aws_linked_hash_table_find(&s_lht, &probe, &p) : aws_cache_find(s_cache, &probe, &p);
+            s_probe = probe;
+            int rc = s_kind == K_LHT ? aws_linked_hash_table_find(&s_lht, probe, &p) : aws_cache_find(s_cache, probe, &p);
             s_probe = NULL;
             HC_CHECK(rc == AWS_OP_SUCCESS);
             s_print_val("find", p);
             s_print_state();
         } else if (!strcmp(t[0], "findmv") && n == 2 && s_kind == K_LHT) {
-            struct hkey probe = {(unsigned)atoi(t[1]), 99};
+            struct hkey probe_obj = {(unsigned)atoi(t[1]), 99};
+            struct hkey *probe = probe_obj.ident == NULL_IDENT ? NULL : &probe_obj;
             void *p = NULL;
-            s_probe = &probe;
-            HC_CHECK(aws_linked_hash_table_find_and_move_to_back(&s_lht, &probe, &p) == AWS_OP_SUCCESS);
+            s_probe = probe;
+            HC_CHECK(aws_linked_hash_table_find_and_move_to_back(&s_lht, probe, &p) == AWS_OP_SUCCESS);
             s_probe = NULL;
             s_print_val("findmv", p);
             s_print_state();
         } else if (!strcmp(t[0], "remove") && n == 2) {
-            struct hkey probe = {(unsigned)atoi(t[1]), 99};
-            s_probe = &probe;
-            int rc = s_kind == K_LHT ? aws_linked_hash_table_remove(&s_lht, &probe) : aws_cache_remove(s_cache, &probe);
+            struct hkey probe_obj = {(unsigned)atoi(t[1]), 99};
+            struct hkey *probe = probe_obj.ident == NULL_IDENT ? NULL : &probe_obj;
+            s_probe = probe;
+            int rc = s_kind == K_LHT ? aws_linked_hash_table_remove(&s_lht, probe) : aws_cache_remove(s_cache, probe);
             s_probe = NULL;
             printf("P remove %s\n", hc_err(rc));
             s_print_evs(true);
@@ -420,7 +462,7 @@ int main(void) {
                  it = aws_linked_list_next(it)) {
                 struct aws_linked_hash_table_node *node =
                     AWS_CONTAINER_OF(it, struct aws_linked_hash_table_node, node);
-                if (s_key_live(node->key) && ((const struct hkey *)node->key)->ident == ident) {
+                if (s_key_live(node->key) && k_ident(node->key) == ident) {
                     found = node;
                     break;
                 }
